@@ -135,7 +135,7 @@ func (r *Run) shared() string {
 func (r *Run) Spawn(t []string) string {
 	var tid int
 	switch {
-	case len(t) == 2 && t[0] == "reg":
+	case (len(t) == 2 || len(t) == 3) && t[0] == "reg":
 		a, ok := proto.Atoi(t[1])
 		if !ok || a < 0 {
 			return "bad-op"
@@ -143,6 +143,15 @@ func (r *Run) Spawn(t []string) string {
 		r.addAddr(a)
 		th := &thr{kind: "reg", addr: a, p: &proc{}}
 		id := prc.NewProcessId(r.rc.GetPhysicalAddress(), logical(a))
+		if len(t) == 3 {
+			// `reg <a> <r>`: register through the reference object <r> that lookups also use (what
+			// future.New / ActorOf do: the id handed to Register is the reference they give out)
+			ri, ok2 := proto.Atoi(t[2])
+			if !ok2 || ri < 0 {
+				return "bad-op"
+			}
+			id = r.ref(a, ri)
+		}
 		tid = r.sc.NumThreads()
 		r.threads[tid] = th
 		r.hist = append(r.hist, fmt.Sprintf("c%d:reg:%d", tid, a))
@@ -315,6 +324,7 @@ func scenarios(tier string) []scenario {
 		{{"reg", "0"}, {"get", "0", "0"}, {"unreg", "0"}},                  // stale cache of a removed process
 		{{"reg", "0"}, {"get", "0", "0"}, {"unreg", "0"}, {"reg", "0"}},    // address reused, stale cache
 		{{"reg", "0"}, {"reg", "1"}, {"get", "0", "0"}, {"get", "1", "0"}}, // two addresses
+		{{"reg", "0"}, {"reg", "0", "0"}},                                  // a refused registration through reference 0
 	}
 	kinds := [][]string{
 		{"reg", "0"}, {"unreg", "0"}, {"get", "0", "0"}, {"get", "0", "1"},
@@ -498,6 +508,9 @@ func gen(rng *proto.RNG, tier string, shard, nshards int, w *bufio.Writer) {
 			switch rng.Pick(3, 3, 5) {
 			case 0:
 				s = []string{"reg", a}
+				if rng.Intn(3) == 0 {
+					s = append(s, fmt.Sprint(rng.Intn(2)))
+				}
 			case 1:
 				s = []string{"unreg", a}
 			default:
